@@ -572,7 +572,8 @@ func checkUntrusted(c *fw.Ctx) {
 		return
 	}
 	perr := "(gmsl.IRoomVersion).NewEventFromUntrustedJSON(gmsl.GetRoomVersion(param:roomVersion)#0,*recv[(phi(-1|<cycle>|<cycle>|<cycle>) + 1)])#1"
-	vars := []tvar{{"err", []string{"nil", "validation-persistable", "validation", "other"}}}
+	vars := []tvar{{"err", []string{"nil", "validation-persistable", "validation", "other"}}, {"event", []string{"present", "nil"}}}
+	pev := perr
 	unknown := map[string]bool{}
 	mism := 0
 	enumerate(vars, func(a asg) {
@@ -582,27 +583,41 @@ func checkUntrusted(c *fw.Ctx) {
 				return true, true
 			case atom == "(gmsl.GetRoomVersion(param:roomVersion)#1 == nil)":
 				return true, true
-			case atom == "typeassert,ok "+perr || strings.Contains(atom, ".(gmsl.EventValidationError)") && strings.HasSuffix(atom, "#1"):
+			case strings.HasPrefix(atom, "typeassert,ok ") && strings.Contains(atom, ".NewEventFromUntrustedJSON(") || strings.Contains(atom, ".(gmsl.EventValidationError)") && strings.HasSuffix(atom, "#1"):
 				return strings.HasPrefix(a["err"], "validation"), true
 			case strings.HasSuffix(atom, ".Persistable"):
 				return a["err"] == "validation-persistable", true
-			case atom == "("+perr+" == nil)":
+			case strings.HasSuffix(atom, "#1 == nil)") && strings.Contains(atom, ".NewEventFromUntrustedJSON(") && !strings.Contains(strings.TrimSuffix(atom, "#1 == nil)"), " == nil"):
 				return a["err"] == "nil", true
+			case strings.HasSuffix(atom, "#0 == nil)") && strings.Contains(atom, ".NewEventFromUntrustedJSON(") && !strings.Contains(strings.TrimSuffix(atom, "#0 == nil)"), "#0 == nil"):
+				_ = pev
+				return a["event"] == "nil", true
 			}
 			return false, false
 		}
+		if a["err"] == "nil" && a["event"] == "nil" {
+			return // a successful parse returns an event
+		}
 		got := evalDNF(conds[appendBlock], env, unknown)
 		want := a["err"] == "nil" || a["err"] == "validation-persistable"
+		if a["event"] == "nil" {
+			// a failure that comes without an event: dropping it is the only safe choice; keeping
+			// it (a nil entry in the list) is reported by C18.F11
+			if !got {
+				return
+			}
+			want = got
+		}
 		if got != want && len(unknown) == 0 {
 			mism++
-			c.Fail(rule, "keep iff parse succeeded or failed with a persistable validation error: "+a["err"], c.P.Pos(fn.Pos()), fmt.Sprintf("for parse result %s the event is kept=%v, the rule says kept=%v", a["err"], got, want))
+			c.Fail(rule, "keep iff parse succeeded or failed with a persistable validation error: "+a["err"], c.P.Pos(fn.Pos()), fmt.Sprintf("for parse result %s (event %s) the event is kept=%v, the rule says kept=%v", a["err"], a["event"], got, want))
 		}
 	})
 	for u := range unknown {
 		c.Undecided(rule, "UntrustedEvents: unrecognised branch condition", u)
 	}
 	if mism == 0 && len(unknown) == 0 {
-		c.Ok(rule, "keep iff parse succeeded or failed with a persistable validation error", c.P.Pos(fn.Pos()), "4 cases")
+		c.Ok(rule, "keep iff parse succeeded or failed with a persistable validation error", c.P.Pos(fn.Pos()), "7 cases")
 	}
 }
 
